@@ -130,7 +130,8 @@ EXPORT void fft64_vmp_apply_dft_to_dft_ref(const MODULE* module,                
   double* vec_output = (double*)res;
 
   const uint64_t row_max = nrows < a_size ? nrows : a_size;
-  const uint64_t col_max = ncols < res_size ? ncols : res_size;
+  // without any usable row every output column is an empty sum, i.e. zero
+  const uint64_t col_max = row_max == 0 ? 0 : (ncols < res_size ? ncols : res_size);
 
   if (nn >= 8) {
     for (uint64_t blk_i = 0; blk_i < m / 4; blk_i++) {
